@@ -12,3 +12,19 @@ Definition all_history_free (U : list field) (entries : list (string * list step
 
 Definition seed_dependent_sites (l : list set_site) : list string :=
   map ss_label (filter seed_dependent l).
+
+(* round 4: the same from the ambient fields (cwd, environ, sys.path, ...: visible to the phases, assigned by no step, preserved by every compile) *)
+Definition leak_report_from (A U : list field) (entries : list (string * list step)) : list (string * option (string * list field)) :=
+  map (fun e => (fst e, first_leak U (snd e) A)) entries.
+
+Definition all_history_free_from (A U : list field) (entries : list (string * list step)) : bool :=
+  forallb (fun e => history_free_from A U (snd e)) entries.
+
+Definition all_simple (entries : list (string * list step)) : bool := forallb (fun e => simple (snd e)) entries.
+
+(* the regenerated table of statements of the package that WRITE an ambient field (os.chdir, os.environ[..] = .., sys.path.insert, signal.signal,
+   locale.setlocale, warnings.simplefilter, logging handlers ...): on a compile path such a write must be undone on every way out (try/finally) *)
+Record ambient_write := mkAmbientWrite { aw_site : string; aw_field : field; aw_on_compile_path : bool; aw_restored_in_finally : bool }.
+Definition ambient_write_ok (w : ambient_write) : bool := negb (aw_on_compile_path w) || aw_restored_in_finally w.
+Definition ambient_writes_restored (l : list ambient_write) : bool := forallb ambient_write_ok l.
+Definition unrestored_ambient_writes (l : list ambient_write) : list string := map aw_site (filter (fun w => negb (ambient_write_ok w)) l).
